@@ -270,7 +270,116 @@ func runC12(r *lib.Run) {
 			}
 		}
 	}
-	r.RequireCov("delete-ok", "present:container", "present:list-entry", "present:whole-list", "present:leaf", "present:leaf-list", "present:ordered-entry", "absent:leaf", "absent:list-entry")
+	// clause "list entries on the way to p that become empty are removed", as a history: every leaf of
+	// one keyed-list entry is deleted, one at a time in a random order (the key leaf wherever the order
+	// puts it); at the end the entry must be gone and nothing else changed
+	for _, cfg := range cfgsFor(r, quick3) {
+		rootEntry := cfg.RootEntry()
+		for i := 0; i < n/2; i++ {
+			if skip(cfg, i) {
+				continue
+			}
+			t := lib.NewGen(cfg, r.Seed+515, i, c10Opts(i)).Tree()
+			rng := rand.New(rand.NewSource(r.Seed*619 + int64(i)))
+			var cands []*lib.Node
+			for _, nd := range cfg.Nodes(t) {
+				if !nd.IsEntry || nd.Keyless || nd.Field.Kind != lib.KList {
+					continue
+				}
+				kfs := nd.Info.KeyFields()
+				if len(kfs) != 1 || kfs[0] == nil || kfs[0].Type.Kind() != reflect.Ptr {
+					continue // single scalar key (after a union key leaf is gone the entry cannot be addressed: C03's known finding)
+				}
+				cands = append(cands, nd)
+			}
+			if len(cands) == 0 {
+				continue
+			}
+			nd := cands[rng.Intn(len(cands))]
+			before := cfg.Observe(t)
+			want := lib.NewObs()
+			var under []*lib.Leaf
+			skipCase := false
+			for _, p := range before.SortedLeafPaths() {
+				l := before.Leaves[p]
+				if lib.ElemsUnder(l.Elems, nd.Path) {
+					under = append(under, l)
+					if strings.Contains(p[len(lib.PathString(nd.Path)):], "[") {
+						skipCase = true // lists nested in the entry: their entries' own key leaves make the order matter
+					}
+				} else {
+					want.Leaves[p] = l
+				}
+			}
+			for lp := range before.Order {
+				if strings.HasPrefix(lp, lib.PathString(nd.Path)) {
+					skipCase = true
+				}
+			}
+			for pp, set := range before.Presence {
+				if set && strings.HasPrefix(pp, lib.PathString(nd.Path)+"/") {
+					skipCase = true // a presence container is data of its own: the entry is not empty without its leaves
+				}
+			}
+			if skipCase || len(under) < 2 {
+				continue
+			}
+			rng.Shuffle(len(under), func(a, b int) { under[a], under[b] = under[b], under[a] })
+			var order []string
+			failed := false
+			for _, l := range under {
+				order = append(order, l.Path)
+				var err error
+				w := wit(cfg, r.Seed, i, map[string]interface{}{"entry": lib.PathString(nd.Path), "order": order, "tree": before.Dump()})
+				if r.Guard("DeleteNode", w, func() { err = ytypes.DeleteNode(rootEntry, t, lib.ToGNMIPath(l.Elems)) }) {
+					failed = true
+					break
+				}
+				if err != nil {
+					r.Hit("one-by-one:delete-error")
+					failed = true
+					break
+				}
+			}
+			if failed {
+				continue
+			}
+			r.Case(cfg.Name+"one-by-one"+strings.Join(order, ","), true)
+			keyPos := "key-leaf-last"
+			for k, l := range under {
+				if k < len(under)-1 && isKeyLeafOf(cfg, t, l) {
+					keyPos = "key-leaf-before-last"
+				}
+			}
+			r.Hit("one-by-one:" + keyPos)
+			w := wit(cfg, r.Seed, i, map[string]interface{}{"entry": lib.PathString(nd.Path), "order": order, "tree": before.Dump()})
+			bad := false
+			after := cfg.Observe(t)
+			for _, d := range lib.DiffObs(want, after, lib.DiffOpts{EmptyLeafListIsAbsent: true}) {
+				if d.What != "leaf" {
+					continue // presence containers / order / shape are compared by the main clause above
+				}
+				bad = true
+				r.Violate("frame-violated", "one-by-one:"+featOf(d), d.String(), w)
+			}
+			ep := lib.PathString(nd.Path)
+			still := after.Entries[ep]
+			for p := range after.Entries {
+				// the entry may linger under another map key rendering once its key leaf is gone
+				if strings.HasPrefix(p, lib.PathString(nd.Path[:len(nd.Path)-1])+"/"+nd.Path[len(nd.Path)-1].Name+"[") && !before.Entries[p] {
+					still = true
+				}
+			}
+			if still || after.Shape[ep] != "" {
+				bad = true
+				r.Violate("entry-emptied-leaf-by-leaf-not-removed", keyPos, "every leaf of "+ep+" was deleted, the entry is still in the list", w)
+			}
+			if !bad {
+				r.Hit("one-by-one-ok")
+			}
+		}
+	}
+	r.RequireCov("one-by-one-ok", "one-by-one:key-leaf-before-last", "delete-ok", "present:container", "present:list-entry", "present:whole-list", "present:leaf", "present:leaf-list", "present:ordered-entry", "absent:leaf", "absent:list-entry")
 }
 
 // dataHeld reports whether a TreeNode returned by GetNode carries data.
